@@ -18,6 +18,8 @@ fn status_name(o: &Order) -> &'static str {
         Filled => "Filled",
         Cancelled => "Cancelled",
         Rejected => "Rejected",
+        #[allow(unreachable_patterns)]
+        _ => "Other",
     }
 }
 
